@@ -175,7 +175,12 @@ func Check() *core.Check {
 			} else {
 				fams = append(fams, ifQuickFamily(leaves))
 			}
-			fams = append(fams, likeFamily(), extLitFamily(), arityFamily())
+			fams = append(fams, likeFamily(), extLitFamily(), arityFamily(), sizesFamily())
+			if tier == "thorough" {
+				fams = append(fams, likeDeepFamily(6, 8))
+			} else {
+				fams = append(fams, likeDeepFamily(5, 7))
+			}
 			w := gen.W[:6]
 			if tier == "thorough" {
 				w = gen.W
@@ -223,6 +228,104 @@ func likeFamily() *core.Family {
 				t.Nontrivial()
 			}
 			t.SampleF(e.String)
+		},
+	}
+}
+
+// like, deeper: every pattern of <= 5 components over {*, a, b} against every string of
+// length <= 7 over {a, b}: backtracking matchers go wrong on the second or third star.
+func likeDeepFamily(maxComp, maxLen int) *core.Family {
+	comps := []PatElem{{Wild: true}, {Lit: "a"}, {Lit: "b"}}
+	var pats [][]PatElem
+	var rec func(cur []PatElem)
+	rec = func(cur []PatElem) {
+		if len(cur) > 0 {
+			pats = append(pats, append([]PatElem{}, cur...))
+		}
+		if len(cur) == maxComp {
+			return
+		}
+		for _, c := range comps {
+			rec(append(cur, c))
+		}
+	}
+	rec(nil)
+	var strs []string
+	var recS func(cur string)
+	recS = func(cur string) {
+		strs = append(strs, cur)
+		if len(cur) == maxLen {
+			return
+		}
+		recS(cur + "a")
+		recS(cur + "b")
+	}
+	recS("")
+	return &core.Family{
+		Name: "like-deep",
+		Desc: fmt.Sprintf("every like pattern of 1..%d components over {*, a, b} (%d) x every string of length <= %d over {a, b} (%d)", maxComp, len(pats), maxLen, len(strs)),
+		N:    int64(len(pats)),
+		Run: func(t *core.T, i int64) {
+			p := pats[i]
+			for _, s := range strs {
+				if CheckExpr(t, "like", Like(L(Str(s)), p...), 0) {
+					t.Nontrivial()
+				}
+			}
+			t.SampleF(func() string { return Like(L(Str("ab")), p...).String() })
+		},
+	}
+}
+
+// sizes: the same operators on containers whose size crosses the thresholds at which a
+// hash table grows, a small-size fast path ends or a slice is reallocated.
+func sizesFamily() *core.Family {
+	sizes := []int{0, 1, 2, 3, 4, 5, 6, 7, 8, 9, 10, 11, 12, 13, 14, 15, 16, 17, 18, 19, 20, 31, 32, 33, 63, 64, 65, 127, 128, 129, 255, 256, 257}
+	lit := func(n int, rev bool) *Expr {
+		es := make([]*Expr, n)
+		for k := 0; k < n; k++ {
+			j := k
+			if rev {
+				j = n - 1 - k
+			}
+			es[k] = L(Long(int64(j)))
+		}
+		return SetLit(es...)
+	}
+	rec := func(n int) *Expr {
+		keys := make([]string, n)
+		vals := make([]*Expr, n)
+		for k := 0; k < n; k++ {
+			keys[k] = fmt.Sprintf("k%d", k)
+			vals[k] = L(Long(int64(k)))
+		}
+		return RecLit(keys, vals)
+	}
+	return &core.Family{
+		Name: "container-sizes",
+		Desc: fmt.Sprintf("sets of the longs 0..n-1 and records with n keys for n in %v: contains (first, last, absent), containsAll / containsAny against n-1 and n+1 members, == with the reversed literal and with one member fewer, isEmpty, has / access of first, last and absent key, == of records", sizes),
+		N:    int64(len(sizes)),
+		Run: func(t *core.T, i int64) {
+			n := sizes[i]
+			S := lit(n, false)
+			es := []*Expr{
+				Bin(OContains, S, L(Long(0))), Bin(OContains, S, L(Long(int64(n-1)))), Bin(OContains, S, L(Long(int64(n)))),
+				Bin(OContainsAll, S, lit(n, true)), Bin(OContainsAll, lit(n+1, true), S), Bin(OContainsAll, S, lit(n+1, false)),
+				Bin(OContainsAny, S, SetLit(L(Long(int64(n))), L(Long(int64(n-1))))), Bin(OContainsAny, S, SetLit(L(Long(int64(n))), L(Long(-1)))),
+				Bin(OEq, S, lit(n, true)), Bin(OEq, S, lit(n+1, true)), Bin(ONe, lit(n+1, false), S), Un(OIsEmpty, S),
+				Bin(OContains, SetLit(S, lit(n+1, false)), lit(n, true)),
+				Has(rec(n), "k0"), Has(rec(n), fmt.Sprintf("k%d", n-1)), Has(rec(n), fmt.Sprintf("k%d", n)),
+				Bin(OEq, Access(rec(n), fmt.Sprintf("k%d", n-1)), L(Long(int64(n-1)))), Bin(OEq, rec(n), rec(n)), Bin(OEq, rec(n), rec(n+1)),
+				Bin(OContains, SetLit(rec(n)), rec(n)),
+			}
+			for _, e := range es {
+				for k := range refEnvs[:1] {
+					if CheckExpr(t, "sizes", e, k) {
+						t.Nontrivial()
+					}
+				}
+			}
+			t.Sample(fmt.Sprintf("n=%d", n))
 		},
 	}
 }
